@@ -199,7 +199,8 @@ def register(reg):
 
     def i_ev0(H):
         x = z3.Const("x!ev0", I)
-        return z3.ForAll([x], z3.Implies(x >= H.alloc, z3.Select(H.g("g:ev_len"), x) == 0), patterns=[z3.Select(H.g("g:ev_len"), x)])
+        return z3.ForAll([x], z3.And(z3.Select(H.g("g:ev_len"), x) >= 0,
+                                     z3.Implies(x >= H.alloc, z3.Select(H.g("g:ev_len"), x) == 0)), patterns=[z3.Select(H.g("g:ev_len"), x)])
     reg.invariants.append(("I-ev0:unallocated-signals-have-no-events", i_ev0, ("alloc", "g:ev_len")))
 
     def i_bs(H, reg=reg):
